@@ -481,13 +481,23 @@ impl StateStore {
 
     /// Create a checkpoint of current state
     pub fn checkpoint(&mut self, name: impl Into<String>) -> StateResult<String> {
-        let checkpoint_id = format!(
-            "checkpoint_{}",
-            SystemTime::now()
-                .duration_since(UNIX_EPOCH)
-                .unwrap()
-                .as_millis()
-        );
+        let now_ms = SystemTime::now()
+            .duration_since(UNIX_EPOCH)
+            .unwrap()
+            .as_millis();
+
+        // The wall clock alone does not identify a checkpoint: two checkpoints taken within
+        // the same millisecond would share an id (and, on the file backend, a directory, so
+        // the second would overwrite the first). Disambiguate against the known checkpoints.
+        let mut checkpoint_id = format!("checkpoint_{}", now_ms);
+        {
+            let existing = self.checkpoints.read().unwrap();
+            let mut n = 1;
+            while existing.iter().any(|c| c.id == checkpoint_id) {
+                checkpoint_id = format!("checkpoint_{}_{}", now_ms, n);
+                n += 1;
+            }
+        }
 
         let state = self.state.read().unwrap();
         let snapshot: HashMap<String, Value> = state
